@@ -164,6 +164,14 @@ pub fn input_tuples(tier: Tier) -> Vec<InTuple> {
         t.p.cid = (0..n).map(|i| b'c'.wrapping_add(i as u8)).collect();
         out.push(t);
     }
+    // many generators on the default input: a defect conditional on a random VALUE with probability ~1/256 per run (a
+    // leading zero byte in a nonce, key share, blinded element or shared secret) needs the value to come up
+    for tp in ntapes..(if tier.thorough() { 2048 } else { 256 }) {
+        let mut t = d.clone();
+        t.tape = tp;
+        t.boundary = true;
+        out.push(t);
+    }
     // dedupe (the product overlaps the deviation set), keeping first occurrences (simplest first)
     let mut seen = std::collections::HashSet::new();
     out.retain(|t| seen.insert(crate::fw::h128(t)));
